@@ -91,6 +91,16 @@ def extract(src, what, sig_rx):
     return src[ms[0].end():end - 1]
 
 
+def extract_ctor(src, what, params_rx):
+    """body of a constructor; the member initialiser `: data(e)` becomes the first statement `data = e;`"""
+    ms = list(re.finditer(r"(?<![~\w])Variant\s*\(\s*" + params_rx + r"\s*\)\s*(?::\s*data\s*\(([^(){};]*)\)\s*)?\{", src))
+    if len(ms) != 1:
+        raise Refuse(f"{what}: {len(ms)} definitions found, expected exactly one")
+    end = balanced(src, ms[0].end() - 1)
+    init = f"data = {ms[0].group(1)};" if ms[0].group(1) is not None else ""
+    return init + src[ms[0].end():end - 1]
+
+
 BASE_TYPES = ["HashMap<String,Variant>", "List<Variant>", "Array<Variant>", "String", "Variant", "Data", "char", "double",
               "bool", "int64", "uint64", "int", "uint", "usize"]
 KIND_OF = {"HashMap<String,Variant>": 7, "List<Variant>": 8, "Array<Variant>": 9, "String": 10}
@@ -1114,6 +1124,56 @@ class Eq(Coe):
         return "\n".join(arms)
 
 
+
+
+class Swp:
+    """`swap(Variant& other)`: a body of copy-initialised local Variants and assignments between `*this`, `other` and the locals,
+    as calls of the translated copy constructor / operator= / (for the locals, at the end, in reverse order) destructor"""
+
+    def __init__(self, fn, param):
+        self.fn, self.param = fn, param
+
+    def refuse(self, msg):
+        raise Refuse(f"{self.fn}: {msg}")
+
+    def obj(self, e, regs):
+        e = strip(e)
+        if e == ("deref", ("this",)):
+            return regs["this"]
+        if e[0] == "id" and e[1] in regs:
+            return regs[e[1]]
+        self.refuse(f"object expression {e!r} is outside the translated subset")
+
+    def body(self, sts, regs, locs, n, result):
+        if not sts:
+            out = result
+            for l in locs:                  # destructors, last constructed first (locs is kept in that order)
+                out = f"(match destruct dtor s {l} with\n | none => none\n | some (s, {l}) => {out})"
+            return out
+        st, rest = sts[0], sts[1:]
+        if st[0] == "decl" and st[1] == (False, "Variant", 0, False):
+            src = self.obj(st[3], regs)
+            reg = f"loc_{st[2]}"
+            c = f"c{n}"
+            k = self.body(rest, dict(regs, **{st[2]: reg}), [reg] + locs, n + 1, result)
+            return (f"(match Raw.Obj.cell {src} with\n | none => none\n | some {c} => (match copyCtor s raw {c} with\n"
+                    f" | none => none\n | some (s, {reg}) => {k}))")
+        if st[0] == "expr" and strip(st[1])[0] == "assign":
+            e = strip(st[1])
+            l, r = self.obj(e[1], regs), self.obj(e[2], regs)
+            c = f"c{n}"
+            k = self.body(rest, regs, locs, n + 1, result)
+            return (f"(match Raw.Obj.cell {r} with\n | none => none\n | some {c} => (match assign dtor s {l} {'true' if l == r else 'false'} {c} with\n"
+                    f" | none => none\n | some (s, {l}) => {k}))")
+        self.refuse(f"statement {st!r} is outside the translated subset")
+
+    def run(self, body):
+        sts = parse_body(body, self.fn)
+        alias = self.body(sts, {"this": "this", self.param: "this"}, [], 1, "some (s, this, this)")
+        dist = self.body(sts, {"this": "this", self.param: "other"}, [], 1, "some (s, this, other)")
+        return f"(if same = true then {alias} else {dist})"
+
+
 # ---- driver ------------------------------------------------------------------------------------------------------------
 def enum_of(src):
     m = re.search(r"enum\s+Type\s*\{([^}]*)\}", src)
@@ -1169,11 +1229,51 @@ def generate(repo):
         rep.append((f"set{name}", f"(dtor : Heap → Cell → Option Heap) (s : Heap) (this : Raw.Obj) ({m.group(1)} : Pay) : Option (Heap × Raw.Obj)",
                     Rep(f"operator=(const {name}&)", enum, kind=kind, other="pay", param=m.group(1)).run(
                         extract(src, f"operator=(const {name}&)", r"Variant\s*&\s*operator\s*=\s*\(\s*const\s+" + trx + r"\s*&\s*\w+\s*\)"), "self")))
+    rep.append(("destruct", "(dtor : Heap → Cell → Option Heap) (s : Heap) (this : Raw.Obj) : Option (Heap × Raw.Obj)",
+                Rep("~Variant()", enum).run(extract(src, "~Variant()", r"~Variant\s*\(\s*\)"), "void")))
+    rep.append(("ctorNull", "(s : Heap) (this : Raw.Obj) : Option (Heap × Raw.Obj)",
+                Rep("Variant()", enum).run(extract_ctor(src, "Variant()", r""), "void")))
+    for name, ct, lt in SCALARS:
+        m = re.search(r"(?<![~\w])Variant\s*\(\s*" + ct + r"\s+(\w+)\s*\)", src)
+        if not m:
+            raise Refuse(f"Variant({ct}) not found")
+        rep.append((f"ctor{name}", f"(s : Heap) (this : Raw.Obj) ({m.group(1)} : {lt}) : Option (Heap × Raw.Obj)",
+                    Rep(f"Variant({ct})", enum, other=("scalar", ct), param=m.group(1)).run(
+                        extract_ctor(src, f"Variant({ct})", ct + r"\s+\w+"), "void")))
+    for name, trx, kind in BOXED:
+        m = re.search(r"(?<![~\w])Variant\s*\(\s*const\s+" + trx + r"\s*&\s*(\w+)\s*\)", src)
+        if not m:
+            raise Refuse(f"Variant(const {name}&) not found")
+        rep.append((f"ctor{name}", f"(s : Heap) (this : Raw.Obj) ({m.group(1)} : Pay) : Option (Heap × Raw.Obj)",
+                    Rep(f"Variant(const {name}&)", enum, kind=kind, other="pay", param=m.group(1)).run(
+                        extract_ctor(src, f"Variant(const {name}&)", r"const\s+" + trx + r"\s*&\s*\w+"), "void")))
+    m = re.search(r"void\s+swap\s*\(\s*Variant\s*&\s*(\w+)\s*\)", src)
+    if not m:
+        raise Refuse("swap(Variant&) not found")
+    rep.append(("swap", "(dtor : Heap → Cell → Option Heap) (s : Heap) (raw this other : Raw.Obj) (same : Bool) : Option (Heap × Raw.Obj × Raw.Obj)",
+                Swp("swap(Variant&)", m.group(1)).run(extract(src, "swap(Variant&)", r"void\s+swap\s*\(\s*Variant\s*&\s*\w+\s*\)"))))
+    # the static null descriptor: `NullData() { type = nullType; ref = 0; }` and its definition in src/Variant.cpp
+    nd = parse_body(extract(src, "NullData()", r"NullData\s*\(\s*\)"), "NullData()")
+    consts = {}
+    for st in nd:
+        e = strip(st[1]) if st[0] == "expr" else None
+        if e is None or e[0] != "assign" or strip(e[1])[0] != "id" or strip(e[1])[1] not in ("type", "ref") or strip(e[1])[1] in consts:
+            raise Refuse("NullData(): statement other than `type = …; ref = …;`")
+        v = strip(e[2])
+        consts[strip(e[1])[1]] = v[1] if v[0] == "num" else enum.get(v[1]) if v[0] == "id" else None
+    if set(consts) != {"type", "ref"} or None in consts.values():
+        raise Refuse("NullData(): `type` and `ref` are not both set to constants")
+    cpp = clean((Path(repo) / "src/Variant.cpp").read_text())
+    cpp = re.sub(r"(?m)^\s*#\s*include[^\n]*$", "", cpp)
+    if tokenize(cpp, "Variant.cpp") != ["Variant", "::", "NullData", "Variant", "::", "nullData", ";"]:
+        raise Refuse("src/Variant.cpp contains more than the definition of Variant::nullData")
     text_rep = ("/- generated by tools/gen_variant.py from include/nstd/Variant.hpp - do not edit -/\n"
                 "import Nstd.Variant.Raw\n\nset_option linter.unusedVariables false\n\n"
                 "namespace Nstd.Generated.VariantRep\nopen Nstd.Variant Nstd.Variant.Deep\n\n")
     for name, sig, body in rep:
         text_rep += f"def {name} {sig} :=\n{indent(body)}\n\n"
+    text_rep += ("/-- `Variant::nullData` (src/Variant.cpp: default-constructed `NullData`): the fields its constructor sets -/\n"
+                 f"def nullDataType : Nat := {consts['type']}\ndef nullDataRef : Nat := {consts['ref']}\n\n")
     text_rep += "end Nstd.Generated.VariantRep\n"
 
     coe = []
@@ -1192,6 +1292,15 @@ def generate(repo):
     eq_arms = Eq("operator==", enum, "bool").run(extract(src, "operator==", r"bool\s+operator\s*==\s*\(\s*const\s+Variant\s*&\s*other\s*\)\s*const"))
     coe.append("/-- `operator==`: `ceq` = the containers' `operator==` on two payloads of the same type, `flip` = the call `other == *this` -/\n"
                "def eq (ds : DblSem) (ceq flip : Val → Val → Option Bool) (v other : Val) : Option Bool :=\n  match v with\n" + eq_arms + "\n")
+    ne = parse_body(extract(src, "operator!=", r"bool\s+operator\s*!=\s*\(\s*const\s+Variant\s*&\s*other\s*\)\s*const"), "operator!=")
+    ok = len(ne) == 1 and ne[0][0] == "return" and strip(ne[0][1])[0] == "not"
+    if ok:
+        inner = strip(strip(ne[0][1])[1])
+        ok = inner[0] == "bin" and inner[1] == "==" and strip(inner[2]) == ("deref", ("this",)) and strip(inner[3]) == ("id", "other")
+    if not ok:
+        raise Refuse("operator!=: body is not `return !(*this == other);`")
+    coe.append("/-- `operator!=` -/\ndef ne (ds : DblSem) (ceq flip : Val → Val → Option Bool) (v other : Val) : Option Bool :=\n"
+               "  (eq ds ceq flip v other).map (fun b => !b)\n")
     text_coe = ("/- generated by tools/gen_variant.py from include/nstd/Variant.hpp - do not edit -/\n"
                 "import Nstd.Variant.Val\n\nset_option linter.unusedVariables false\n\n"
                 "namespace Nstd.Generated.VariantCoerce\nopen Nstd.Variant\n\n" + "\n".join(coe) +
